@@ -152,6 +152,12 @@ fn shapes() -> Vec<(usize, Vec<(usize, usize, usize)>)> {
             }
         }
     }
+    // boundary sizes: many parallel relationships between two nodes, at and around the word sizes
+    // a bit set over relationship ids would use (seeded change C12 sized such a set one word short
+    // when the highest id is a multiple of 64 and exported that relationship twice)
+    for k in [63usize, 64, 65, 128] {
+        out.push((2, (0..k).map(|i| (0usize, 1usize, i % 2)).collect()));
+    }
     out
 }
 
@@ -190,6 +196,9 @@ fn gen_cases(tier: Tier) -> (Vec<Case>, BTreeMap<String, u64>) {
     //            labels (quick) {A} per node / (thorough) every assignment
     for (si, sh) in shapes.iter().enumerate() {
         for labels in all_label_vecs(sh.0) {
+            if sh.1.len() > 2 && !labels.iter().all(|&m| m == 1) {
+                continue; // boundary-size shapes: one label assignment
+            }
             let mut placements: Vec<(Option<usize>, Place)> = vec![(None, Place::None)];
             let simple_labels = labels.iter().all(|&m| m == 1);
             let quick_value_shape = (sh.0 == 1 && sh.1.is_empty()) || (sh.0 == 2 && sh.1 == vec![(0, 1, 0)]);
